@@ -3,9 +3,11 @@ Triples of the operations that touch many slots: `dropRange` (behind `clear`, `D
 `Drain::drop`), `clear`, `Drop for Map`, `retain`.
 -/
 import Micromap.Proofs.MapApi
+import Micromap.Proofs.DictLaws
 
 namespace Micromap
 open Dict (swapRemove)
+open SetAlg (EquivB NodupKeys)
 variable {K V Q : Type} (E : Env K V Q)
 
 /-- the effects of dropping a list of pairs front to back. -/
@@ -129,15 +131,17 @@ theorem retainLoop_sat (f : Nat → K → V → Bool × V) (f0 : K → V → Boo
     ∀ (fuel i : Nat) (s : St K V Q) (l : List (K × V)), Rep s.r l → i + fuel = l.length →
     Sat (retainLoop E f fuel i) s
       (fun _ s' => s'.r.cap = s.r.cap ∧ (∃ tr, WRel s.w s'.w tr) ∧ ∃ l', Rep s'.r l' ∧ l'.length ≤ l.length ∧
-        ((∀ n k v, f n k v = f0 k v) → l' = Dict.retainL f0 fuel i l))
-      (fun c s' => s'.r.cap = s.r.cap ∧ InjPanic s s' c ∧ ∃ l', Rep s'.r l' ∧ l'.length ≤ l.length)
+        ((∀ n k v, f n k v = f0 k v) → l' = Dict.retainL f0 fuel i l) ∧
+        (∀ keq : K → K → Bool, EquivB keq → NodupKeys keq l → NodupKeys keq l'))
+      (fun c s' => s'.r.cap = s.r.cap ∧ InjPanic s s' c ∧ ∃ l', Rep s'.r l' ∧ l'.length ≤ l.length ∧
+        (∀ keq : K → K → Bool, EquivB keq → NodupKeys keq l → NodupKeys keq l'))
   | 0, i, s, l, hr, hfl => by
     unfold retainLoop
     show Sat (getLen >>= _) s _ _
     refine Sat.bind (Q₁ := fun n s' => n = l.length ∧ s = s') (show Sat getLen s _ _ from ⟨hr.1, rfl⟩) ?_
     rintro _ _ ⟨rfl, rfl⟩
     rw [if_neg (by omega)]
-    exact Sat.pure ⟨rfl, ⟨_, WRel.refl _⟩, l, hr, Nat.le_refl _, fun _ => rfl⟩
+    exact Sat.pure ⟨rfl, ⟨_, WRel.refl _⟩, l, hr, Nat.le_refl _, fun _ => rfl, fun _ _ h => h⟩
   | fuel + 1, i, s, l, hr, hfl => by
     have hi : i < l.length := by omega
     unfold retainLoop
@@ -159,45 +163,54 @@ theorem retainLoop_sat (f : Nat → K → V → Bool × V) (f0 : K → V → Boo
         (Q := fun _ s' => s' = { s1 with r := setSlot s1.r i (some (l[i].1, v')) }) rfl) ?_
       rintro _ _ rfl
       have hr2 : Rep (setSlot s1.r i (some (l[i].1, v'))) (l.set i (l[i].1, v')) := hr1.set hi _
+      have hnset : ∀ keq : K → K → Bool, EquivB keq → NodupKeys keq l → NodupKeys keq (l.set i (l[i].1, v')) :=
+        fun keq h hn => Dict.nodupKeys_set h hn hi _ _ (h.refl _)
       cases keep with
       | true =>
         simp only [if_true]
         refine Sat.mono (retainLoop_sat f f0 fuel (i + 1) _ _ hr2 (by simp; omega)) ?_ ?_
-        · intro _ s3 ⟨g1, ⟨tr, g2⟩, l', g3, g4, g5⟩
-          refine ⟨by rw [g1]; simp [h1], ⟨_, h2.trans g2⟩, l', g3, by simpa using g4, fun hf => ?_⟩
+        · intro _ s3 ⟨g1, ⟨tr, g2⟩, l', g3, g4, g5, g6⟩
+          refine ⟨by rw [g1]; simp [h1], ⟨_, h2.trans g2⟩, l', g3, by simpa using g4, fun hf => ?_,
+            fun keq h hn => g6 keq h (hnset keq h hn)⟩
           rw [g5 hf]
           have : f0 l[i].1 l[i].2 = (true, v') := by rw [← hf s1.w.calls, hres]
           simp [Dict.retainL, List.getElem?_eq_getElem hi, this]
-        · intro c s3 ⟨g1, g2, l', g3, g4⟩
-          exact ⟨by rw [g1]; simp [h1], g2.after h2, l', g3, by simpa using g4⟩
+        · intro c s3 ⟨g1, g2, l', g3, g4, g6⟩
+          exact ⟨by rw [g1]; simp [h1], g2.after h2, l', g3, by simpa using g4,
+            fun keq h hn => g6 keq h (hnset keq h hn)⟩
       | false =>
         simp only [Bool.false_eq_true, if_false]
         have hi2 : i < (l.set i (l[i].1, v')).length := by simpa using hi
         refine Sat.bind (Sat.mono (remove_index_drop_sat E (s := { s1 with r := setSlot s1.r i (some (l[i].1, v')) })
           hr2 hi2) (fun _ _ h => h) ?_) ?_
         · intro c s3 ⟨g1, g2, g3⟩
-          refine ⟨by rw [g2]; simp [h1], g3.after h2, _, g1, ?_⟩
+          refine ⟨by rw [g2]; simp [h1], g3.after h2, _, g1, ?_,
+            fun keq h hn => Dict.nodupKeys_swapRemove h (hnset keq h hn) hi2⟩
           rw [swapRemove_length' hi2]; simp
         · intro _ s3 ⟨g1, g2, g3⟩
           have hlen : (swapRemove (l.set i (l[i].1, v')) i).length = l.length - 1 := by
             rw [swapRemove_length' hi2]; simp
           refine Sat.mono (retainLoop_sat f f0 fuel i s3 _ g1 (by rw [hlen]; omega)) ?_ ?_
-          · intro _ s4 ⟨k1, ⟨tr, k2⟩, l', k3, k4, k5⟩
-            refine ⟨by rw [k1, g2]; simp [h1], ⟨_, (h2.trans g3).trans k2⟩, l', k3, by omega, fun hf => ?_⟩
+          · intro _ s4 ⟨k1, ⟨tr, k2⟩, l', k3, k4, k5, k6⟩
+            refine ⟨by rw [k1, g2]; simp [h1], ⟨_, (h2.trans g3).trans k2⟩, l', k3, by omega, fun hf => ?_,
+              fun keq h hn => k6 keq h (Dict.nodupKeys_swapRemove h (hnset keq h hn) hi2)⟩
             rw [k5 hf]
             have : f0 l[i].1 l[i].2 = (false, v') := by rw [← hf s1.w.calls, hres]
             simp [Dict.retainL, List.getElem?_eq_getElem hi, this]
-          · intro c s4 ⟨k1, k2, l', k3, k4⟩
-            exact ⟨by rw [k1, g2]; simp [h1], k2.after (h2.trans g3), l', k3, by omega⟩
+          · intro c s4 ⟨k1, k2, l', k3, k4, k6⟩
+            exact ⟨by rw [k1, g2]; simp [h1], k2.after (h2.trans g3), l', k3, by omega,
+              fun keq h hn => k6 keq h (Dict.nodupKeys_swapRemove h (hnset keq h hn) hi2)⟩
     · intro s1 tr' h1 h2 h3 h4
-      exact ⟨by rw [h1], InjPanic.of_cb h2 h3 h4, l, h1 ▸ hr, Nat.le_refl _⟩
+      exact ⟨by rw [h1], InjPanic.of_cb h2 h3 h4, l, h1 ▸ hr, Nat.le_refl _, fun _ _ h => h⟩
 
 theorem retain_sat (f : Nat → K → V → Bool × V) (f0 : K → V → Bool × V) {s : St K V Q} {l : List (K × V)}
     (hr : Rep s.r l) :
     Sat (retain E f) s
       (fun _ s' => s'.r.cap = s.r.cap ∧ (∃ tr, WRel s.w s'.w tr) ∧ ∃ l', Rep s'.r l' ∧ l'.length ≤ l.length ∧
-        ((∀ n k v, f n k v = f0 k v) → l' = Dict.retainL f0 l.length 0 l))
-      (fun c s' => s'.r.cap = s.r.cap ∧ InjPanic s s' c ∧ ∃ l', Rep s'.r l' ∧ l'.length ≤ l.length) := by
+        ((∀ n k v, f n k v = f0 k v) → l' = Dict.retainL f0 l.length 0 l) ∧
+        (∀ keq : K → K → Bool, EquivB keq → NodupKeys keq l → NodupKeys keq l'))
+      (fun c s' => s'.r.cap = s.r.cap ∧ InjPanic s s' c ∧ ∃ l', Rep s'.r l' ∧ l'.length ≤ l.length ∧
+        (∀ keq : K → K → Bool, EquivB keq → NodupKeys keq l → NodupKeys keq l')) := by
   unfold retain
   show Sat (getLen >>= _) s _ _
   refine Sat.bind (Q₁ := fun n s' => n = l.length ∧ s = s') (show Sat getLen s _ _ from ⟨hr.1, rfl⟩) ?_
